@@ -207,6 +207,9 @@ func (p *Parser) parseNewSet(call *ast.CallExpr, info *types.Info, wireAlias str
 // parseSetElement parses an element within wire.NewSet.
 func (p *Parser) parseSetElement(expr ast.Expr, info *types.Info, wireAlias string, filePath string) WirePattern {
 	switch e := expr.(type) {
+	case *ast.ParenExpr:
+		// (NewFoo) is NewFoo
+		return p.parseSetElement(e.X, info, wireAlias, filePath)
 	case *ast.CallExpr:
 		// Nested wire call (Bind, Value, etc.)
 		pattern, _ := p.parseCallExpr(e, info, wireAlias, filePath, "")
